@@ -62,6 +62,11 @@ def passloop_model(out, tier):
         if r.rc != 0:
             raise ToolError("PassLoop.tla (N=4): design properties violated:\n" + r.out[-2500:])
         info["PassLoop N=4 (2 runs)"] = {"distinct_states": r.distinct, "result": "SweepBound, FixedPoint, Stable, AllVisited hold"}
+        r2 = run_tlc("PassLoop", cfg="PassLoop_2f", workers=12, heap="24g", timeout=7200)
+        out.add_tlc(r2)
+        if r2.rc != 0:
+            raise ToolError("PassLoop.tla (N=3, two facts): design properties violated:\n" + r2.out[-2500:])
+        info["PassLoop N=3 with two facts (2 runs)"] = {"distinct_states": r2.distinct, "result": "SweepBound (the same 2N+1), FixedPoint, Stable, AllVisited hold"}
     return info
 
 
